@@ -19,7 +19,7 @@ def run(ctx):
     ctx.tlc_must_pass("MC_Decoder", "MC_Decoder_q" if quick else "MC_Decoder_t", timeout=3000)
     if not quick:
         ctx.tlc_must_pass("MC_Decoder", "MC_Decoder_full2", timeout=3000)  # every byte value, |w| <= 2
-    fams = ["corpus", "corrupt", "random", "alphabet", "adversarial", "splice", "meta"]
+    fams = ["corpus", "corrupt", "random", "alphabet", "adversarial", "splice", "meta", "gradients"]
     cov = deccheck.run_decoder_traces(ctx, fams, 3000 if quick else 150000, KINDS,
                                       "decoder safety/prefix/outcome mismatch")
     # boundedness in the length of a path: one path of millions of separate drawing opcodes (18 MB quick, 40 MB thorough), decoded in a
